@@ -669,7 +669,7 @@ pub fn run(ctx: &Ctx) -> Outcome {
     let mut out = Outcome::default();
     let quick = ctx.tier.is_quick();
     let m = ReceiverModel::new(if quick { "receiver-q" } else { "receiver-t" }, quick);
-    let rep = search(ctx, &m, "C03", if quick { 9 } else { 12 }, ctx.tier.budget_s(), true);
+    let rep = search(ctx, &m, "C03", if quick { 7 } else { 12 }, ctx.tier.budget_s(), true);
     fill_outcome(&mut out, &[(m.name, &rep)]);
     out.set("exhaustive", json!(false));
     out.set("alphabet", json!(m.events.iter().map(|e| format!("{:?}", e)).collect::<Vec<_>>()));
